@@ -120,6 +120,13 @@ def monitor(lines, out):
             if v == "-": continue
             if float(v) != want:
                 msgs.append("hypervolume %s=%s, measure of the dominated region is %d" % (name, v, want))
+    elif q == "Y":
+        # direct call of HOY's stream on a region [low, up) x (-inf, cover) with every point inside: the result is the
+        # measure of the part of the region the points dominate (doubled coordinates: 2^m * result is an integer)
+        if "st" not in f: return []
+        want = spec_hv(P, ref)
+        if float(f["st"]) != want:
+            msgs.append("HOY stream returns %s / 2^%d on the region, measure of the dominated part is %d / 2^%d" % (f["st"], d, want, d))
     elif q == "K":
         if n == 0: return []
         keff = min(k, n); want = spec_contribs(P, ref); scale = spec_hv(P, ref)
@@ -217,6 +224,17 @@ def compare(a, b, lines_holder=[None]):
             if fx["wfg"] != "-" and fy.get("wfg", "-") != "-" and float(fy["wfg"]) != int(fx["wfg"]): return False
             if fx["lim"] != fy.get("lim", "?"): return False      # limitSet(points[1..], points[0]) as a sorted multiset
             if fx.get("disp", "-") != "-" and fy.get("disp", "-") != "-" and float(fy["disp"]) != int(fx["disp"]): return False   # front end model
+            # the model of HypervolumeCalculatorMDHOY (C13Hoy.v) next to the code
+            if fx.get("hoy", "-") != "-" and fy.get("hoy", "-") != "-" and float(fy["hoy"]) != int(fx["hoy"]): return False
+        elif kind == "Y":
+            if "nolow" in x or "nolow" in y:
+                if x != y: return False
+                continue
+            # stream: value, recursion tree (sizes of the child point sets of every splitting call), getMedian, computeTrellis
+            if "EXC" in y: return False
+            if float(fy["st"]) != int(fx["st"]) or fy["tr"] != fx["tr"]: return False
+            if fx["med"] != "-" and float(fy["med"]) != int(fx["med"]): return False
+            if fx["trel"] != "-" and float(fy["trel"]) != int(fx["trel"]): return False
         elif kind == "K":
             if "empty" in x or "empty" in y:
                 if x != y: return False
@@ -359,12 +377,39 @@ def gen_hoy_neg(rng, big):
         for p in P: p[rng.randrange(d)] = -1
     return case_lines("H", d, 0, [hi + rng.choice([0, 1, 1, 2]) for _ in range(d)], P)
 
+def gen_hoy_stream(rng, big):
+    """direct call of HypervolumeCalculatorMDHOY::stream (query Y, all numbers doubled): the call operator() makes
+    (points strictly below the reference point, sorted by the last objective, regionLow = component-wise minimum,
+    m_sqrtNoPoints = floor(sqrt(n))), and variations of it that are legal states of the recursion: half-integer region
+    bounds, lower corner below the minimum, other thresholds m_sqrtNoPoints, split = 1"""
+    import math
+    while True:
+        d = rng.choice([3, 4, 4, 4, 5]); n = rng.choice([1, 2, 3, 4, 5, 6, 8, 10, 14, 20] + ([30, 40] if big else []))
+        if d == 5: n = min(n, 10)
+        if rng.random() < 0.4:
+            lo = rng.choice([-2, -3, -4]); hi = rng.choice([-1, 0, 1])
+            P = [[rng.randint(lo, hi) for _ in range(d)] for _ in range(n)]
+        else:
+            R = rng.choice({3: [1, 2, 4, 6], 4: [1, 2, 3, 4], 5: [1, 2, 3]}[d]); P = rng_points(rng, d, n, R)
+        mx = [max(p[j] for p in P) for j in range(d)]
+        ref = [m + rng.choice([0, 1, 1, 1, 2]) for m in mx]
+        S = sorted([p for p in P if all(x < r for x, r in zip(p, ref))], key=lambda p: p[-1])
+        if S: break
+    low = [2 * min(p[j] for p in S) for j in range(d - 1)]; up = [2 * r for r in ref[:-1]]; cover = 2 * ref[-1]
+    sq = int(math.isqrt(len(P))); split = 0
+    if rng.random() < 0.4:
+        low = [l - rng.choice([0, 0, 1, 2, 3]) for l in low]; up = [u + rng.choice([0, 0, 1, 3]) for u in up]
+        cover += rng.choice([0, 1, 2]); sq = rng.choice([0, 1, 2, sq, len(S)]); split = rng.choice([0, 0, 1])
+    return (["C Y %d %d %s" % (d, sq, " ".join(map(str, up + [cover]))), "l %d %s" % (split, " ".join(map(str, low)))]
+            + ["p " + " ".join(str(2 * x) for x in p) for p in S] + ["E"])
+
 def gen_case(rng, big, kind=None):
     kind = kind or rng.choice(["R", "R", "H", "H", "H", "K", "K", "S", "S", "D", "K3", "NEG", "HOYNEG"])
     if kind == "D": return gen_dc(rng, big)
     if kind == "K3": return gen_k3(rng, big)
     if kind == "NEG": return gen_shifted(rng, big)
     if kind == "HOYNEG": return gen_hoy_neg(rng, big)
+    if kind == "Y": return gen_hoy_stream(rng, big)
     d, R = pick_dR(rng, big)
     if kind == "R":
         n = rng.choice([1, 2, 3, 5, 8, 13, 20, 30, 40] + ([60, 80] if big else []))
@@ -414,7 +459,7 @@ def model_checks(ck, cases, model_out):
     """consistency inside the model run: unproved model parts against the proved spec values"""
     bad = []
     stats = {"fast_nds=rank_list": 0, "dc_nds=nds_front=rank_list": 0, "contribs_md=contribs_spec": 0, "contribs3d=contribs_spec": 0, "contrib2d_ref=contrib_spec": 0, "best_subset(model)=best_subset(monitor)": 0,
-             "hv3d=hv_spec": 0, "wfg=hv_spec": 0, "wfg_limit=python_limit": 0,
+             "hv3d=hv_spec": 0, "wfg=hv_spec": 0, "wfg_limit=python_limit": 0, "hoy=hv_spec": 0, "hoy_stream=measure": 0,
              "hv(hssp2d model selection)=best_subset_hv": 0}
     for c, (o, rc, _) in zip(cases, model_out):
         q, d, k, ref, P, hasE = parse_case(c)
@@ -439,9 +484,15 @@ def model_checks(ck, cases, model_out):
                 stats["wfg=hv_spec"] += 1
                 if f["wfg"] != f["spec"]: bad.append(("wfg model differs from hv_spec", c, r))
             if f.get("disp", "-") != "-" and f["disp"] != f["spec"]: bad.append(("hv_dispatch model differs from hv_spec", c, r))
+            if f.get("hoy", "-") != "-":
+                stats["hoy=hv_spec"] += 1
+                if f["hoy"] != f["spec"]: bad.append(("hoy model (HypervolumeCalculatorMDHOY) differs from hv_spec", c, r))
             if f["lim"] != "-":
                 stats["wfg_limit=python_limit"] += 1
                 if f["lim"] != spec_limit(P): bad.append(("wfg_limit model differs from the Python limit set", c, r))
+        elif q == "Y" and "st" in f:
+            stats["hoy_stream=measure"] += 1
+            if int(f["st"]) != spec_hv(P, ref): bad.append(("hoy_stream model differs from the measure of the dominated part of the region", c, r))
         elif q == "K" and P:
             if ints(f["spec"]) != spec_contribs(P, ref): bad.append(("contribs_spec differs from the Python contributions", c, r))
             if f["c2d"] != "-":
@@ -493,6 +544,9 @@ def main():
     big = ck.tier == "thorough"
     env = {"OMP_NUM_THREADS": "2"}
     cases = load_cases(ck, lambda: gen_case(ck.rng, big), 3000 if not big else 30000)
+    if not ck.replay:
+        # direct calls of HOY's stream (value + recursion tree + getMedian + computeTrellis next to the model C13Hoy.v)
+        cases += [gen_hoy_stream(ck.rng, big) for _ in range(400 if not big else 4000)]
     main_cases = [c for c in cases if c[0].split()[1] != "N"]
     noref_cases = [c for c in cases if c[0].split()[1] == "N"]
 
